@@ -18,7 +18,8 @@ Step == /\ verdict[1] = "ok" /\ l <= Len(Tr) /\ l' = l + 1 /\ tid' = tid
            CASE e.k = "ctor" -> est' = Append(est, Cfg(St(e.post))) /\ verdict' = <<"ok", "">>
              [] e.k = "enter" ->
                   /\ est' = est
-                  /\ verdict' = IF Differs(Cfg(St(e.post)), est[e.o]) # {}
+                  /\ verdict' = IF e.exc # "none" THEN <<"C09.Restored", "__enter__ raised " \o e.exc>>
+                                ELSE IF Differs(Cfg(St(e.post)), est[e.o]) # {}
                                 THEN <<"C09.Restored", ToString(Differs(Cfg(St(e.post)), est[e.o]))>>
                                 ELSE IF Bit(e.post.c, 1) = 0 THEN <<"C09.Restored", "radio not powered up inside the block">>
                                 ELSE <<"ok", "">>
